@@ -67,6 +67,7 @@ type Inst struct {
 	healthPos      int
 	startedAt      time.Duration
 	watchOK        bool
+	stopInvoked    int // stop calls invoked so far
 	parkedYields   int
 	inflightOps    int
 	apiBusy        int
@@ -479,6 +480,7 @@ func (d *Driver) doAction(a *Action) {
 	switch a.Kind {
 	case AStop, AStopCtx:
 		in.inStopCall++
+		in.stopInvoked++
 		in.running = false
 		ev.WasLeaderAtInv = o.el.IsLeader()
 		if !d.free {
@@ -520,7 +522,7 @@ func (d *Driver) apiCall(in *Inst, o *elObj, a *Action, ev *ApiEvt) {
 		// Start moves the state to CANDIDATE without recording a transition; the run's first
 		// recorded transition may come before Start has returned to its caller
 		d.mu.Lock()
-		transBefore := o.nTrans
+		transBefore, stopsBefore := o.nTrans, in.stopInvoked
 		o.startInFlight++
 		d.mu.Unlock()
 		err = o.el.Start(ctx)
@@ -532,11 +534,15 @@ func (d *Driver) apiCall(in *Inst, o *elObj, a *Action, ev *ApiEvt) {
 		if err == nil {
 			o.cancelStart = cancel
 			o.started = true
-			in.running = true
-			in.stopRetStep = 0
-			in.opsAfterStop = nil
 			in.startedAt = d.now()
-			in.watchOK = false
+			if in.stopInvoked == stopsBefore {
+				// (a stop call invoked while Start had not yet returned to its caller comes after
+				// this start: the instance is stopping or stopped, not running)
+				in.running = true
+				in.stopRetStep = 0
+				in.opsAfterStop = nil
+				in.watchOK = false
+			}
 		}
 		d.mu.Unlock()
 	case AStop:
